@@ -20,16 +20,38 @@ pub fn clear() {
     let _ = HOOK.try_with(|h| *h.borrow_mut() = None);
 }
 
-/// A verification point: no-op unless the current thread installed a hook.
+/// A process-wide fallback hook, for threads the harness cannot reach (e.g. an exporter's own thread).
+pub type GlobalHook = Box<dyn Fn(&'static str, &[i64]) + Send + Sync>;
+
+static GLOBAL: std::sync::RwLock<Option<GlobalHook>> = std::sync::RwLock::new(None);
+
+/// Installs (or with `None` removes) the process-wide fallback hook. It only sees points hit by threads
+/// without a hook of their own.
+pub fn install_global(hook: Option<GlobalHook>) {
+    *GLOBAL.write().unwrap_or_else(std::sync::PoisonError::into_inner) = hook;
+}
+
+/// A verification point: no-op unless the current thread installed a hook (or a global hook exists).
 #[inline]
 pub fn point(site: &'static str, args: &[i64]) {
-    let _ = HOOK.try_with(|h| {
-        if let Ok(h) = h.try_borrow() {
-            if let Some(f) = h.as_ref() {
+    let local = HOOK
+        .try_with(|h| {
+            if let Ok(h) = h.try_borrow() {
+                if let Some(f) = h.as_ref() {
+                    f(site, args);
+                    return true;
+                }
+            }
+            false
+        })
+        .unwrap_or(false);
+    if !local {
+        if let Ok(g) = GLOBAL.try_read() {
+            if let Some(f) = g.as_ref() {
                 f(site, args);
             }
         }
-    });
+    }
 }
 
 /// A fresh instance of the crate-private once-cell that holds the global recorder, so that
